@@ -229,6 +229,22 @@ class RankedVertex(Vertex):
         return tuple(sorted(super().links, key=lambda l: (getattr(l, "tag", 0), getattr(l, "eidx", 0))))
 
 
+class VDirLess(Vertex):
+    """Overrides __dir__ to list its public dynamic attributes only (what a tidy repr / tab completion wants)."""
+
+    def __dir__(self):
+        return [k for k in vars(self) if not k.startswith("_")]
+
+
+class VRecord(Vertex):
+    """Record-like: an attribute that was never set reads as None instead of raising."""
+
+    def __getattr__(self, name):
+        if name.startswith("__") and name.endswith("__"):
+            raise AttributeError(name)
+        return None
+
+
 class ClusterVertex(Vertex):
     """A vertex that is also an iterable of vertices (a cluster yielding its members)."""
 
@@ -271,7 +287,7 @@ EDGE_CLASSES = {
 # classes for graph-spec based checks only (not part of the history driver's op language)
 SPEC_ONLY_EDGE_CLASSES = {"DuckLink": DuckLink, "OtherLink~": OtherLinkNamesake}
 SPEC_ONLY_VERTEX_CLASSES = {"Vertex~": VertexNamesake, "VSub~": VSubNamesake, "UnhashableVertex": UnhashableVertex,
-                            "RankedVertex": RankedVertex}
+                            "RankedVertex": RankedVertex, "VDirLess": VDirLess, "VRecord": VRecord}
 LINK_CLASSES = dict(EDGE_CLASSES)
 LINK_CLASSES["MultiLink"] = MultiLink
 ALL_CLASSES = {}
@@ -398,6 +414,23 @@ def f_reentrant(e, v):
     return len(seen) >= 1 and getattr(e, "tag", 0) % 4 != 3
 
 
+def f_mutual(e, w):
+    """
+    Pure in (edge, other end), but decides by QUERYING THE SAME VERTEX that is being queried, with other arguments:
+    "w is a neighbour of v that also points back at v".
+    """
+    from edgegraph.traversal import helpers
+
+    v = e.other(w)
+    if v is None:
+        return True
+    try:
+        back = helpers.neighbors(v, 2, 1, None)
+    except Exception:  # noqa: BLE001 - a degenerate edge elsewhere at v: no opinion
+        return True
+    return any(x is w for x in back) or getattr(e, "tag", 0) % 2 == 0
+
+
 class FreshMin:
     """
     A callable filter OBJECT that the workload creates anew for one query and drops afterwards (so the next
@@ -451,6 +484,7 @@ NB_FILTERS = {
     "int_valued": f_tag_mod3_value,
     "object_valued": f_vertex_itself,
     "defaulted_param": f_defaulted_third_parameter,
+    "mutual": f_mutual,
 }
 
 
